@@ -240,7 +240,7 @@ func TestVerif_C13(t *testing.T) {
 		}
 	}
 	// Part B: streams with bad frames at every offset relative to triggers and recordings
-	n := c.N(3000, 120000)
+	n := c.N(3000, 1200000)
 	for s := int64(0); s < n; s++ {
 		myIdx := idx
 		idx++
